@@ -68,13 +68,25 @@ var errClassTable = map[string][]errClassSpec{
 
 // sentinelsOf lists the sentinels fn (and its closures) wraps with %w or returns directly.
 func sentinelsOf(fn *ssa.Function) []string {
+	out := sentinelsOfRec(fn, 0, map[*ssa.Function]bool{})
+	sort.Strings(out)
+	return out
+}
+
+func sentinelsOfRec(fn *ssa.Function, depth int, onStack map[*ssa.Function]bool) []string {
 	var out []string
+	onStack[fn] = true
+	defer delete(onStack, fn)
 	for _, f := range append([]*ssa.Function{fn}, AnonFuncsDeep(fn)...) {
 		allInstrs(f, func(in ssa.Instruction) {
 			switch x := in.(type) {
 			case *ssa.Call:
 				if g := errorfWraps(x); g != nil {
 					out = append(out, g.Name())
+				}
+				// an unexported helper of the same package that a failing block was moved into: its classes are the caller's
+				if sc := x.Call.StaticCallee(); sc != nil && !onStack[sc] && depth < 2 && sc.Pkg == fn.Pkg && sc.Parent() == nil && sc.Object() != nil && !sc.Object().Exported() && len(sc.Blocks) > 2 {
+					out = append(out, sentinelsOfRec(sc, depth+1, onStack)...)
 				}
 				// a helper of the library that only builds an error
 				if sc := x.Call.StaticCallee(); sc != nil && sc != fn && sc.Pkg != nil && isLibPkgPath(sc.Pkg.Pkg.Path()) && sc.Blocks != nil && len(sc.Blocks) <= 2 {
@@ -100,7 +112,6 @@ func sentinelsOf(fn *ssa.Function) []string {
 			}
 		})
 	}
-	sort.Strings(out)
 	return out
 }
 
